@@ -25,6 +25,11 @@ func init() {
 			c.P.Rule = "random families"
 			c.Rapid("lr0", c.Pick(10000, 100000), func(t *rapid.T) {
 				gc := DrawGrammar(t, []string{"uniform", "productive", "nullable", "separators", "lalr", "uniform-small", "bigauto"})
+				if rapid.IntRange(0, 2).Draw(t, "rename") == 0 {
+					// names must not matter, not even a user nonterminal called "start"
+					spec.WithNames(t, gc.Spec)
+					gc.Text = gc.Spec.Render(spec.RenderOpts{})
+				}
 				if msg := evalC09(c, gc); msg != "" {
 					c.Fail(gc, msg)
 					t.Fatalf("%s", msg)
